@@ -37,6 +37,7 @@ class Ctx:
         self.corr_disagreements = []
         self.coverage = {}
         self.n_replays = 0
+        self.replay_of = None      # replay mode: the loaded replay file (dict)
 
     def log(self, *a):
         print(f"[{self.pid} {time.time()-self.t0:6.1f}s]", *a, flush=True)
@@ -278,7 +279,7 @@ def violation(ctx, kind, payload, no_input=False):
     """Record a violation with a replay file."""
     ctx.n_replays += 1
     os.makedirs(os.path.join(ROOT, "replays"), exist_ok=True)
-    path = os.path.join(ROOT, "replays", f"{ctx.pid}-{ctx.n_replays}.json")
+    path = os.path.join(ROOT, "replays", f"{ctx.pid}-{'replayed-' if ctx.replay_of is not None else ''}{ctx.n_replays}.json")
     payload = dict(payload)
     payload.update({"property": ctx.pid, "kind": kind, "seed": ctx.seed, "tier": ctx.tier,
                     "no_failing_input_found": no_input})
@@ -326,8 +327,11 @@ def finish(ctx, level="proof", trusted=None, assumptions=None, extra=None):
         "wall_s": round(time.time() - ctx.t0, 2), "violations": len(ctx.violations),
     }
     os.makedirs(os.path.join(ROOT, "evidence"), exist_ok=True)
-    with open(os.path.join(ROOT, "evidence", f"{ctx.pid}.json"), "w") as f:
-        json.dump(ev, f, indent=1, ensure_ascii=False)
+    if ctx.replay_of is None:          # a replay does not replace the evidence of the last full run
+        with open(os.path.join(ROOT, "evidence", f"{ctx.pid}.json"), "w") as f:
+            json.dump(ev, f, indent=1, ensure_ascii=False)
+    else:
+        print("REPLAY: " + ("reproduced" if ctx.violations else "not reproduced (the recorded input no longer fails / the proof and correspondence check again)"), flush=True)
     shutil.rmtree(ctx.work, ignore_errors=True)
     ctx.log(f"done: obligations={len(ctx.obligations)} discharged={len(ctx.discharged)} "
             f"violations={len(ctx.violations)} known={ctx.known_hits}")
@@ -344,6 +348,9 @@ TRUSTED_COMMON = [
 def decide(ctx, failures, findings, guard_of=None):
     """failures: list of dicts {case, check, detail, guards:set, model_agrees:bool}.
     Attribute to known findings or report violations; then handle broken proofs/correspondence."""
+    if ctx.replay_of is not None and ctx.replay_of.get("input") is not None:
+        # replay mode: the run is repeated with the recorded seed and tier; only the recorded input counts
+        failures = [f for f in failures if f["case"] == ctx.replay_of["input"]]
     new = []
     for f in failures:
         hit = None
@@ -369,6 +376,8 @@ def decide(ctx, failures, findings, guard_of=None):
                       {"check": chk, "input": f["case"], "detail": f["detail"],
                        "replay_how": f.get("replay_how", ""), "n_failing_cases_this_check": len(fs)})
             reported += 1
+    if ctx.replay_of is not None and ctx.replay_of.get("kind") != "proof-or-correspondence-broken":
+        return new
     if not new and (ctx.broken_theorems or ctx.corr_disagreements):
         payload = {"broken_theorems": ctx.broken_theorems,
                    "correspondence_disagreements": ctx.corr_disagreements[:10],
